@@ -209,6 +209,8 @@ theorem entryScoped_inv {w : World} (hw : Inv w) (hg : w.guards = []) (ty t : Na
   | seen _ => exact ⟨h1, h3 (by intro _ _ hc; cases hc)⟩
   | data _ => exact ⟨h1, h3 (by intro _ _ hc; cases hc)⟩
   | panic _ => exact ⟨h1, h3 (by intro _ _ hc; cases hc)⟩
+  | scopeDone _ _ => exact ⟨h1, h3 (by intro _ _ hc; cases hc)⟩
+  | unwound _ => exact ⟨h1, h3 (by intro _ _ hc; cases hc)⟩
 
 theorem setup_inv {w : World} (hw : Inv w) (hg : w.guards = []) (items : List SdItem) (toks : List Nat) :
     Inv (w.setup items toks).1 ∧ (w.setup items toks).1.guards = [] := by
@@ -372,6 +374,8 @@ theorem sysData_panic_frame {w : World} (hw : Inv w) (hh : HandlesOk w) (items :
       | none => cases hp
       | value _ => cases hp
       | seen _ => cases hp
+      | scopeDone _ _ => cases hp
+      | unwound _ => cases hp
 
 /-! ## meta iterators -/
 
@@ -435,10 +439,265 @@ theorem cloneGuard_handles {w : World} (hw : HandlesOk w) (h : Nat) : HandlesOk 
     · exact fetchCore_handles hw _ _ _ _
   · exact hw
 
-/-! ## every operation -/
-
 theorem handles_of_nil {w : World} (hg : w.guards = []) : HandlesOk w := by
   simp [HandlesOk, hg]
+
+/-! ## closures that hold guards: everything they take is released again -/
+
+/-- the two tables agree -/
+def CG (a b : World) : Prop := a.cells = b.cells ∧ a.guards = b.guards
+
+theorem CG.refl (w : World) : CG w w := ⟨rfl, rfl⟩
+theorem CG.trans {a b c : World} (h1 : CG a b) (h2 : CG b c) : CG a c := ⟨h1.1.trans h2.1, h1.2.trans h2.2⟩
+
+theorem releaseAll_append (w : World) (l1 l2 : List Nat) :
+    releaseAll w (l1 ++ l2) = releaseAll (releaseAll w l1) l2 := by
+  induction l1 generalizing w with
+  | nil => rfl
+  | cons h t ih => exact ih _
+
+theorem releaseAll_inv {w : World} (hw : Inv w) (hs : List Nat) : Inv (releaseAll w hs) := by
+  induction hs generalizing w with
+  | nil => exact hw
+  | cons h t ih => exact ih (release_inv hw h)
+
+theorem releaseAll_handles {w : World} (hw : HandlesOk w) (hs : List Nat) : HandlesOk (releaseAll w hs) := by
+  induction hs generalizing w with
+  | nil => exact hw
+  | cons h t ih => exact ih (release_handles hw h)
+
+theorem releaseAll_cg {w1 w2 : World} (h : CG w2 w1) (hs : List Nat) : CG (releaseAll w2 hs) (releaseAll w1 hs) := by
+  induction hs generalizing w1 w2 with
+  | nil => exact h
+  | cons x t ih => exact ih (release_cells_guards h.1 h.2 x)
+
+/-- a fetch, whatever it answers, followed by the drop of the guard it may have returned leaves
+both tables as they were -/
+theorem fetchCore_release_frame {w : World} (hw : Inv w) (hh : HandlesOk w) (k : ResId) (excl : Bool) (f : Form)
+    (orPanic : Bool) :
+    CG (releaseAll (w.fetchCore k excl f orPanic).1 (handlesOf (w.fetchCore k excl f orPanic).2).reverse) w := by
+  rcases fetchCore_cases w k excl f orPanic with ⟨h1, ⟨_, h2⟩ | ⟨c, _, _, h2⟩⟩ | ⟨c, b', hc, hb, he⟩
+  · rw [h1, h2]; cases orPanic <;> exact CG.refl w
+  · rw [h1, h2]; exact CG.refl w
+  · rw [he]
+    exact acquire_release hw hh hc hb
+
+/-- a composite fetch that succeeded, followed by the drop of its fields (last first) -/
+theorem sysData_data_release {w : World} (hw : Inv w) (hh : HandlesOk w) (items : List SdItem)
+    (fs : List (Option (Nat × Nat))) (h : (w.sysData items).2 = .data fs) :
+    CG (releaseAll (w.sysData items).1 (handlesOf (.data fs)).reverse) w := by
+  induction items generalizing w fs with
+  | nil => simp [sysData] at h; subst h; exact CG.refl w
+  | cons it rest ih =>
+    rcases sysData_cons w it rest with ⟨_, _, _, he⟩ | ⟨p, _, he⟩ | ⟨c, b', hc, hb, he⟩
+    · rw [he] at h ⊢
+      have := ih hw hh
+      generalize w.sysData rest = r at this h ⊢
+      obtain ⟨w2, o⟩ := r
+      cases o with
+      | data fs0 =>
+        simp at h; subst h
+        have h2 := this fs0 rfl
+        simpa [handlesOf] using h2
+      | _ => simp at h
+    · rw [he] at h; cases h
+    · rw [he] at h ⊢
+      have hw1 := inv_acquire hw hc hb
+      have hh1 := fetchCore_handles hh ⟨it.ty, 0⟩ it.write .typed (!it.opt)
+      rw [fetchCore_ok _ _ _ _ _ hc hb] at hh1
+      have := ih hw1 hh1
+      have hrt := acquire_release hw hh hc hb
+      generalize sysData _ rest = r at this h ⊢
+      obtain ⟨w2, o⟩ := r
+      cases o with
+      | data fs0 =>
+        simp at h; subst h
+        have h2 := this fs0 rfl
+        simp only [handlesOf, List.filterMap_cons, Option.map_some, List.reverse_cons, releaseAll_append] at h2 ⊢
+        exact (releaseAll_cg h2 [w.nextHandle]).trans hrt
+      | _ => simp at h
+
+theorem sysData_release_frame {w : World} (hw : Inv w) (hh : HandlesOk w) (items : List SdItem) :
+    CG (releaseAll (w.sysData items).1 (handlesOf (w.sysData items).2).reverse) w := by
+  rcases sysData_out w items with ⟨fs, h⟩ | ⟨p, h⟩
+  · rw [h]; exact sysData_data_release hw hh items fs h
+  · rw [h]; exact sysData_panic_frame hw hh items p h
+
+theorem cloneGuard_release_frame {w : World} (hw : Inv w) (hh : HandlesOk w) (h : Nat) :
+    CG (releaseAll (w.cloneGuard h).1 (handlesOf (w.cloneGuard h).2).reverse) w := by
+  unfold cloneGuard
+  split
+  · split
+    · exact CG.refl w
+    · exact fetchCore_release_frame hw hh _ _ _ _
+  · exact CG.refl w
+
+theorem metaNext_release_frame {w : World} (hw : Inv w) (hh : HandlesOk w) (tys : List Nat) (idx : Nat) (excl : Bool) :
+    CG (releaseAll (w.metaNext tys idx excl).1 (handlesOf (w.metaNext tys idx excl).2.1).reverse) w := by
+  unfold metaNext
+  rcases metaScan_cases w excl (tys.drop idx) idx with ⟨h1, h2, _⟩ | ⟨_, ty, _, _, _, _, h1, h2, _⟩
+  · rw [h1, h2]; exact CG.refl w
+  · rw [h1, h2]; exact fetchCore_release_frame hw hh _ _ _ _
+
+/-- **one acquisition inside a closure**: the invariant survives, and dropping what was acquired
+(last first) restores both tables -/
+theorem take_release_frame {w : World} (hw : Inv w) (hh : HandlesOk w) (tys : List Nat) (ri wi : Nat)
+    (prior : List Nat) (t : Take) :
+    Inv (t.run w tys ri wi prior).1 ∧ HandlesOk (t.run w tys ri wi prior).1 ∧
+    CG (releaseAll (t.run w tys ri wi prior).1 (handlesOf (t.run w tys ri wi prior).2).reverse) w := by
+  cases t with
+  | fetch ty excl orPanic =>
+    exact ⟨fetchCore_inv hw _ _ _ _, fetchCore_handles hh _ _ _ _, fetchCore_release_frame hw hh _ _ _ _⟩
+  | byId a k excl =>
+    cases excl
+    · simp only [Take.run, Bool.false_eq_true, if_false, tryFetchById]
+      split
+      · exact ⟨hw, hh, CG.refl w⟩
+      · exact ⟨fetchCore_inv hw _ _ _ _, fetchCore_handles hh _ _ _ _, fetchCore_release_frame hw hh _ _ _ _⟩
+    · simp only [Take.run, if_true, tryFetchMutById]
+      split
+      · exact ⟨hw, hh, CG.refl w⟩
+      · exact ⟨fetchCore_inv hw _ _ _ _, fetchCore_handles hh _ _ _ _, fetchCore_release_frame hw hh _ _ _ _⟩
+  | data items => exact ⟨sysData_inv hw items, sysData_handles hh items, sysData_release_frame hw hh items⟩
+  | iter excl =>
+    exact ⟨metaNext_inv hw _ _ _, metaNext_handles hh _ _ _, metaNext_release_frame hw hh _ _ _⟩
+  | cloneLocal i =>
+    simp only [Take.run]
+    split
+    · exact ⟨cloneGuard_inv hw _, cloneGuard_handles hh _, cloneGuard_release_frame hw hh _⟩
+    · exact ⟨hw, hh, CG.refl w⟩
+  | cloneOuter h => exact ⟨cloneGuard_inv hw _, cloneGuard_handles hh _, cloneGuard_release_frame hw hh _⟩
+
+/-- the body of a closure: at its end — or at the refused fetch — dropping the guards it owns,
+last taken first, restores both tables -/
+theorem scopeBody_frame (tys : List Nat) (takes : List Take) {w : World} (hw : Inv w) (hh : HandlesOk w)
+    (ri wi : Nat) (prior : List Nat) :
+    Inv (scopeBody tys takes w ri wi prior).1 ∧ HandlesOk (scopeBody tys takes w ri wi prior).1 ∧
+    CG (releaseAll (scopeBody tys takes w ri wi prior).1 (scopeBody tys takes w ri wi prior).2.1.reverse) w := by
+  induction takes generalizing w ri wi prior with
+  | nil => exact ⟨hw, hh, CG.refl w⟩
+  | cons t rest ih =>
+    have ht := take_release_frame hw hh tys ri wi prior t
+    unfold scopeBody
+    generalize t.run w tys ri wi prior = r at ht
+    obtain ⟨w1, o⟩ := r
+    have key : ∀ (_ : ∀ p, o ≠ .panic p),
+        let b := scopeBody tys rest w1 (t.advance w tys ri wi).1 (t.advance w tys ri wi).2 (prior ++ handlesOf o)
+        Inv b.1 ∧ HandlesOk b.1 ∧ CG (releaseAll b.1 (handlesOf o ++ b.2.1).reverse) w := by
+      intro _ b
+      have hb := ih ht.1 ht.2.1 (t.advance w tys ri wi).1 (t.advance w tys ri wi).2 (prior ++ handlesOf o)
+      refine ⟨hb.1, hb.2.1, ?_⟩
+      rw [List.reverse_append, releaseAll_append]
+      exact (releaseAll_cg hb.2.2 _).trans ht.2.2
+    cases o with
+    | panic p => exact ⟨ht.1, ht.2.1, ht.2.2⟩
+    | unit => exact key (by intro p hc; cases hc)
+    | bool _ => exact key (by intro p hc; cases hc)
+    | guard _ _ => exact key (by intro p hc; cases hc)
+    | none => exact key (by intro p hc; cases hc)
+    | value _ => exact key (by intro p hc; cases hc)
+    | seen _ => exact key (by intro p hc; cases hc)
+    | data _ => exact key (by intro p hc; cases hc)
+    | scopeDone _ _ => exact key (by intro p hc; cases hc)
+    | unwound _ => exact key (by intro p hc; cases hc)
+
+/-- the invariant alone needs no assumption on handles -/
+theorem take_inv {w : World} (hw : Inv w) (tys : List Nat) (ri wi : Nat) (prior : List Nat) (t : Take) :
+    Inv (t.run w tys ri wi prior).1 := by
+  cases t with
+  | fetch ty excl orPanic => exact fetchCore_inv hw _ _ _ _
+  | byId a k excl =>
+    cases excl
+    · simp only [Take.run, Bool.false_eq_true, if_false, tryFetchById]
+      split
+      · exact hw
+      · exact fetchCore_inv hw _ _ _ _
+    · simp only [Take.run, if_true, tryFetchMutById]
+      split
+      · exact hw
+      · exact fetchCore_inv hw _ _ _ _
+  | data items => exact sysData_inv hw items
+  | iter excl => exact metaNext_inv hw _ _ _
+  | cloneLocal i =>
+    simp only [Take.run]
+    split
+    · exact cloneGuard_inv hw _
+    · exact hw
+  | cloneOuter h => exact cloneGuard_inv hw _
+
+theorem scopeBody_inv (tys : List Nat) (takes : List Take) {w : World} (hw : Inv w)
+    (ri wi : Nat) (prior : List Nat) : Inv (scopeBody tys takes w ri wi prior).1 := by
+  induction takes generalizing w ri wi prior with
+  | nil => exact hw
+  | cons t rest ih =>
+    have ht := take_inv hw tys ri wi prior t
+    unfold scopeBody
+    generalize t.run w tys ri wi prior = r at ht
+    obtain ⟨w1, o⟩ := r
+    cases o <;> first | exact ht | exact ih ht _ _ _
+
+/-- **`scope_frame`**: a closure that takes guards of any kind, in any order, and then returns,
+panics, or is refused a fetch half-way, leaves — once it has been left, by return or by unwinding —
+every cell and every guard that lives outside it exactly as they were -/
+theorem scope_frame {w : World} (hw : Inv w) (hh : HandlesOk w) (tys : List Nat) (takes : List Take) (e : Bool) :
+    (w.scope tys takes e).1.cells = w.cells ∧ (w.scope tys takes e).1.guards = w.guards :=
+  (scopeBody_frame tys takes hw hh 0 0 []).2.2
+
+theorem scope_inv {w : World} (hw : Inv w) (hh : HandlesOk w) (tys : List Nat) (takes : List Take) (e : Bool) :
+    Inv (w.scope tys takes e).1 ∧ HandlesOk (w.scope tys takes e).1 :=
+  ⟨releaseAll_inv (scopeBody_frame tys takes hw hh 0 0 []).1 _,
+   releaseAll_handles (scopeBody_frame tys takes hw hh 0 0 []).2.1 _⟩
+
+/-! ## faults inside `&mut` calls: the state is the one of the plain call -/
+
+theorem insertFused_fst (w : World) (a : Nat) (k : ResId) (t : Nat) :
+    (w.insertFused a k t).1 = (w.insertById a k t).1 := by
+  unfold insertFused
+  generalize w.insertById a k t = r
+  obtain ⟨w', o⟩ := r
+  cases o <;> cases w.get k <;> rfl
+
+theorem entryFault_guardHeld_fst (w : World) (ty t : Nat) (bv : Bool) :
+    (w.entryFault ty t (.guardHeld bv)).1 = (w.entryScoped ty t bv).1 := by
+  simp only [entryFault, entryScoped]
+  generalize w.entryOrInsert ty t bv = r
+  obtain ⟨w', o⟩ := r
+  cases o <;> rfl
+
+theorem execFault_fst (w : World) (items : List SdItem) (toks : List Nat) :
+    (w.execFault items toks).1 = (w.exec items toks).1 := by
+  unfold execFault exec
+  generalize sysData _ items = r
+  obtain ⟨w', o⟩ := r
+  cases o <;> rfl
+
+theorem entryFault_inv {w : World} (hw : Inv w) (hg : w.guards = []) (ty t : Nat) (f : EntryFault) :
+    Inv (w.entryFault ty t f).1 ∧ (w.entryFault ty t f).1.guards = [] := by
+  cases f with
+  | guardHeld bv => rw [entryFault_guardHeld_fst]; exact entryScoped_inv hw hg ty t bv
+  | valueDrop =>
+    unfold entryFault
+    cases hk : w.get ⟨ty, 0⟩ with
+    | some c => exact ⟨hw, hg⟩
+    | none => exact entryScoped_inv hw hg ty t true
+  | closure =>
+    unfold entryFault
+    cases hk : w.get ⟨ty, 0⟩ with
+    | some c => exact entryScoped_inv hw hg ty t false
+    | none => exact ⟨hw, hg⟩
+
+theorem exec_inv {w : World} (hw : Inv w) (hg : w.guards = []) (items : List SdItem) (toks : List Nat) :
+    Inv (w.exec items toks).1 ∧ HandlesOk (w.exec items toks).1 := by
+  have h1 := setup_inv hw hg items toks
+  have h2 := sysData_inv h1.1 items
+  have h3 := sysData_handles (handles_of_nil h1.2) items
+  unfold exec
+  generalize sysData _ items = r at h2 h3
+  obtain ⟨w2, o⟩ := r
+  cases o <;> first | exact ⟨h2, h3⟩ | exact ⟨releaseData_inv h2 _, releaseData_handles h3 _⟩
+
+/-! ## every operation -/
+
 
 /-- **`step_preserves_inv`** -/
 theorem step_inv {w : World} (hw : Inv w) (op : Op) (hl : op.isMut = true → w.guards = []) :
@@ -480,6 +739,14 @@ theorem step_inv {w : World} (hw : Inv w) (op : Op) (hl : op.isMut = true → w.
   | metaNext tys idx x => exact metaNext_inv hw tys idx x
   | clone h => exact cloneGuard_inv hw h
   | drop h => exact release_inv hw h
+  | scope tys takes e => exact releaseAll_inv (scopeBody_inv tys takes hw 0 0 []) _
+  | insertFused a k tok =>
+    show Inv (w.insertFused a k tok).1
+    rw [insertFused_fst]; exact (insertById_inv hw (hl rfl) _ _ _).1
+  | entryFault ty tok f => exact (entryFault_inv hw (hl rfl) _ _ _).1
+  | execFault items toks =>
+    show Inv (w.execFault items toks).1
+    rw [execFault_fst]; exact (exec_inv hw (hl rfl) items toks).1
 
 theorem step_handles {w : World} (hw : HandlesOk w) (hi : Inv w) (op : Op) (hl : op.isMut = true → w.guards = []) :
     HandlesOk (w.step op).1 := by
@@ -520,6 +787,14 @@ theorem step_handles {w : World} (hw : HandlesOk w) (hi : Inv w) (op : Op) (hl :
   | metaNext tys idx x => exact metaNext_handles hw tys idx x
   | clone h => exact cloneGuard_handles hw h
   | drop h => exact release_handles hw h
+  | scope tys takes e => exact releaseAll_handles (scopeBody_frame tys takes hi hw 0 0 []).2.1 _
+  | insertFused a k tok =>
+    show HandlesOk (w.insertFused a k tok).1
+    rw [insertFused_fst]; exact handles_of_nil (insertById_inv hi (hl rfl) _ _ _).2
+  | entryFault ty tok f => exact handles_of_nil (entryFault_inv hi (hl rfl) _ _ _).2
+  | execFault items toks =>
+    show HandlesOk (w.execFault items toks).1
+    rw [execFault_fst]; exact (exec_inv hi (hl rfl) items toks).2
 
 theorem run_inv {w : World} (hw : Inv w) (hh : HandlesOk w) (ops : List Op) (hl : Legal w ops) :
     Inv (w.run ops) ∧ HandlesOk (w.run ops) := by
